@@ -83,6 +83,9 @@ pub struct Case {
     /// the mean of that value (the accumulation broadcasts it)
     #[serde(default)]
     pub eval_scalar: bool,
+    /// the simulated models hand out column-major prediction buffers
+    #[serde(default)]
+    pub pred_colmajor: bool,
 }
 
 #[derive(Clone, Debug, Default, Serialize, Deserialize)]
@@ -237,6 +240,7 @@ impl Geometry {
 }
 
 struct SimFit<I> {
+    pred_colmajor: bool,
     model: usize,
     geo: Rc<Geometry>,
     nf: usize,
@@ -247,6 +251,9 @@ struct SimFit<I> {
     _i: std::marker::PhantomData<I>,
 }
 struct SimModel<I> {
+    /// hand out column-major (Fortran-order) prediction buffers - legal for any model, and what
+    /// linfa's own multi-target wrapper produces
+    colmajor: bool,
     model: usize,
     fold: usize,
     nf: usize,
@@ -294,6 +301,7 @@ impl<'c, I: TargetDim> Fit<ArrayView2<'c, f64>, ArrayView<'c, f64, I>, SimError>
             return Err(SimError::Injected(here));
         }
         Ok(SimModel {
+            colmajor: self.pred_colmajor,
             model: self.model,
             fold,
             nf: self.nf,
@@ -326,7 +334,12 @@ impl<'a, I: TargetDim> PredictInplace<ArrayView2<'a, f64>, Array<f64, I>> for Si
     }
     fn default_target(&self, x: &ArrayView2<'a, f64>) -> Array<f64, I> {
         let _ = self.ncols;
-        Array::zeros(self.tshape.clone().nsamples(x.nrows()))
+        let shape = self.tshape.clone().nsamples(x.nrows());
+        if self.colmajor {
+            Array::zeros(shape.f())
+        } else {
+            Array::zeros(shape)
+        }
     }
 }
 
@@ -500,6 +513,7 @@ fn drive_cv<I, D, S>(
     let ncols = case.nt.max(1);
     let fits: Vec<SimFit<I>> = (0..case.models)
         .map(|m| SimFit {
+            pred_colmajor: case.pred_colmajor,
             model: m,
             geo: geo.clone(),
             nf: case.nf,
@@ -588,6 +602,7 @@ fn drive_iter_fold<I, D, S>(
 {
     let ncols = case.nt.max(1);
     let fit = SimFit::<I> {
+        pred_colmajor: case.pred_colmajor,
         model: 0,
         geo: geo.clone(),
         nf: case.nf,
@@ -793,6 +808,7 @@ fn run_once(case: &Case, b: &mut Buffers, pristine_rec: &Array2<f64>, pristine_t
                     if case.api == Api::CrossValidateSingle {
                         let fits: Vec<SimFit<Ix1>> = (0..case.models)
                             .map(|m| SimFit {
+                                pred_colmajor: case.pred_colmajor,
                                 model: m,
                                 geo: geo.clone(),
                                 nf: case.nf,
@@ -923,12 +939,12 @@ pub fn plan(tier: &str, seed: u64) -> Plan {
             // fold(): every layout, single/multi target
             for layout in [Layout::Owned, Layout::ViewContig, Layout::ViewStrided, Layout::OwnedColMajor, Layout::ViewTransposed] {
                 for nt in [0usize, 2] {
-                    cases.push(Case { api: Api::Fold, n, k, nf: 1 + (n + k) % 3, nt, layout, models: 1, faults: vec![], f32acc: false, dyadic: true, val_seed: 0, panic_at: None, special: false, repeat: false, weighted: false, eval_scalar: false });
+                    cases.push(Case { api: Api::Fold, n, k, nf: 1 + (n + k) % 3, nt, layout, models: 1, faults: vec![], f32acc: false, dyadic: true, val_seed: 0, panic_at: None, special: false, repeat: false, weighted: false, eval_scalar: false, pred_colmajor: false });
                 }
             }
             for layout in [Layout::Owned, Layout::ViewContig] {
                 for nt in [0usize, 1, 3] {
-                    cases.push(Case { api: Api::IterFold, n, k, nf: 1 + (n * k) % 4, nt, layout, models: 1, faults: vec![], f32acc: false, dyadic: true, val_seed: 0, panic_at: None, special: false, repeat: false, weighted: layout == Layout::Owned && (n + k + nt) % 2 == 0, eval_scalar: false });
+                    cases.push(Case { api: Api::IterFold, n, k, nf: 1 + (n * k) % 4, nt, layout, models: 1, faults: vec![], f32acc: false, dyadic: true, val_seed: 0, panic_at: None, special: false, repeat: false, weighted: layout == Layout::Owned && (n + k + nt) % 2 == 0, eval_scalar: false, pred_colmajor: false });
                 }
             }
             // cross_validate: fault plans — all singles everywhere; all pairs on the small grid
@@ -958,6 +974,7 @@ pub fn plan(tier: &str, seed: u64) -> Plan {
                         repeat: h & 1024 != 0,
                         weighted: h & 2048 != 0,
                         eval_scalar: nt >= 2 && !single_api && h & 4096 != 0,
+                        pred_colmajor: nt >= 2 && h & 8192 != 0,
                     });
                 }
             }
@@ -1007,21 +1024,29 @@ pub fn plan(tier: &str, seed: u64) -> Plan {
             repeat: r.chance(0.3),
             weighted: r.chance(0.3),
             eval_scalar: nt >= 2 && r.chance(0.25),
+            pred_colmajor: nt >= 2 && r.chance(0.3),
         });
     }
     // datasets without feature columns (legal: only the targets carry information)
     for (n, k) in [(4usize, 2usize), (7, 3), (9, 4), (6, 6)] {
         for nt in [0usize, 2] {
             for api in [Api::Fold, Api::IterFold, Api::CrossValidate] {
-                cases.push(Case { api, n, k, nf: 0, nt, layout: Layout::Owned, models: 2, faults: vec![], f32acc: false, dyadic: true, val_seed: 5, panic_at: None, special: false, repeat: false, weighted: false, eval_scalar: false });
+                cases.push(Case { api, n, k, nf: 0, nt, layout: Layout::Owned, models: 2, faults: vec![], f32acc: false, dyadic: true, val_seed: 5, panic_at: None, special: false, repeat: false, weighted: false, eval_scalar: false, pred_colmajor: false });
             }
+        }
+    }
+    // validation parts of several thousand rows (beyond any internal batch or block length,
+    // and not a multiple of the usual powers of two)
+    for (n, k) in [(10_000usize, 2usize), (12_292, 3), (8_200, 2), (20_000, 4)] {
+        for (api, nt) in [(Api::CrossValidate, 0usize), (Api::CrossValidate, 2), (Api::IterFold, 1), (Api::Fold, 0)] {
+            cases.push(Case { api, n, k, nf: 1, nt, layout: Layout::Owned, models: 1, faults: vec![], f32acc: false, dyadic: true, val_seed: 11, panic_at: None, special: false, repeat: false, weighted: api != Api::Fold, eval_scalar: false, pred_colmajor: nt >= 2 });
         }
     }
     // no candidate model at all ("any number of candidate models"): nothing to fit or score,
     // the dataset must still come back intact and the result is an empty score array
     for (n, k) in [(5usize, 2usize), (7, 3), (9, 9)] {
         for nt in [0usize, 2] {
-            cases.push(Case { api: Api::CrossValidate, n, k, nf: 2, nt, layout: Layout::ViewContig, models: 0, faults: vec![], f32acc: false, dyadic: true, val_seed: 3, panic_at: None, special: false, repeat: false, weighted: false, eval_scalar: false });
+            cases.push(Case { api: Api::CrossValidate, n, k, nf: 2, nt, layout: Layout::ViewContig, models: 0, faults: vec![], f32acc: false, dyadic: true, val_seed: 3, panic_at: None, special: false, repeat: false, weighted: false, eval_scalar: false, pred_colmajor: false });
         }
     }
     // panic probes (observation only)
@@ -1045,6 +1070,7 @@ pub fn plan(tier: &str, seed: u64) -> Plan {
                     repeat: false,
                     weighted: false,
                     eval_scalar: false,
+                    pred_colmajor: false,
                 });
             }
         }
@@ -1130,6 +1156,11 @@ pub fn shrink_candidates(c: &Case) -> Vec<Case> {
     if c.eval_scalar {
         let mut d = c.clone();
         d.eval_scalar = false;
+        push(&mut v, d);
+    }
+    if c.pred_colmajor {
+        let mut d = c.clone();
+        d.pred_colmajor = false;
         push(&mut v, d);
     }
     v
